@@ -1167,7 +1167,7 @@ def translate_expression(node: ast.expr, lean_name: str, atoms: Sequence[Tuple[s
     t = Translator(dummy, lean_name, [], consts, numpy_names, source_text, **glue)
     params, lean_params = [], []
     for text, lean, ty in atoms:
-        if ty not in (VAL, RAT, INT, BOOL, STR):
+        if ty not in (VAL, RAT, INT, BOOL, STR) and not (ty == NAT and glue.get("bitops")):
             raise Unsupported(f"{py_name}: atom `{text}` of unknown type {ty}")
         key = src(ast.parse(text, mode="eval").body)
         t.atoms[key] = Binding(lean_ident(lean), ty)
@@ -1179,7 +1179,7 @@ def translate_expression(node: ast.expr, lean_name: str, atoms: Sequence[Tuple[s
         if isinstance(n, (ast.Lambda, ast.NamedExpr, ast.Await, ast.Yield, ast.YieldFrom)):
             raise Unsupported(f"{py_name}: `{src(n)}` is outside the subset")
     e = t.expr(node, {}, frozenset())
-    if e.ty not in NUMERIC + (BOOL,):
+    if e.ty not in NUMERIC + (BOOL,) + ((NAT,) if glue.get("bitops") else ()):
         raise Unsupported(f"{py_name}: the expression is a {e.ty}")
     r = Ret([e])
     tree = t.wrap_pending(r, 0)
